@@ -53,6 +53,8 @@ def mappings(root):
         'dirdefault': {'/static': root, '': 'a.txt'},
         'ctype': {'/static': {'filename': root, 'content_type': 'x/y'}},
         'filect': {'/file': {'filename': os.path.join(root, 'a.txt'), 'content_type': 'x/z'}},
+        'dictnoct': {'/static': {'filename': root}},
+        'defaultct': {'/static': {'filename': root}, '': {'filename': 'a.txt', 'content_type': 'x/d'}},
         'none': {},
     }
 
@@ -61,7 +63,8 @@ def resolve(path, mapname, root):
     """Reference resolver: -> (matches, exists, dots, escapes, expected file relative to root,
     expected content type)"""
     key = {'dir': '/static', 'dirslash': '/static/', 'file': '/file', 'rootdir': '/',
-           'dirdefault': '/static', 'ctype': '/static', 'filect': '/file', 'none': None}[mapname]
+           'dirdefault': '/static', 'ctype': '/static', 'filect': '/file', 'dictnoct': '/static',
+           'defaultct': '/static', 'none': None}[mapname]
     if key is None:
         return False, False, False, False, None, None
     if mapname in ('file', 'filect'):
@@ -94,15 +97,19 @@ def resolve(path, mapname, root):
         return True, False, True, True, None, None
     rel = '/'.join(stack)
     full = os.path.join(root, rel) if rel else root
-    default = 'a.txt' if mapname == 'dirdefault' else 'index.html'
+    default = 'a.txt' if mapname in ('dirdefault', 'defaultct') else 'index.html'
+    used_default = False
     if trailing or os.path.isdir(full):
         if trailing:
             rel = (rel + '/' if rel else '') + default
+            used_default = True
         # a directory without trailing slash is not a file
     full = os.path.join(root, rel)
     exists = os.path.isfile(full)
     ext = rel.rsplit('.', 1)[-1] if '.' in rel else ''
     ct = 'x/y' if mapname == 'ctype' else CT.get(ext, 'application/octet-stream')
+    if mapname == 'defaultct' and used_default:
+        ct = 'x/d'           # the default-file entry carries its own content type
     return True, exists, bool(dots), False, rel, ct
 
 
